@@ -4,7 +4,7 @@
 #        database rows included; the recorded dependency ORDER is adopted from the implementation - acceptance).
 # Oracle O: after every build the driver builds the same key in a brand-new real engine without database (`fresh`) and
 #        the two real results - and every value handed to a task - must agree.
-import os, random
+import os, random, zlib
 import vlib, enginelib as E, enginechk as K
 
 SCHEDS = [None, lambda r: "defer:%d" % r.randint(0, 999), lambda r: "mixed:%d" % r.randint(0, 999)]
@@ -38,6 +38,8 @@ def one_history(chk, sess, lines, tag, origin, model=True):
     if a != b:
         ok = False
         if not bad:
+            found = search_failing(chk, sess, lines, tag, origin)
+        if not bad and not found:
             chk.violation("spec-correspondence", "the specification engine and the real engine disagree on canonical observations (no stale result observed on the implementation)",
                           dict(scenario=lines, diff=K.diff_text(a, b), origin=origin), found_input=False,
                           broken="correspondence Spec.ensure <-> BuildEngine (theorems of Properties_C01.v no longer tied to the code)")
@@ -53,6 +55,59 @@ def one_history(chk, sess, lines, tag, origin, model=True):
     nexec = sum(1 for x in r["out"] if x.startswith("create "))
     chk.count(("h", tag) if nexec > 3 else None, n=nb)
     return ok
+
+
+def search_failing(chk, sess, lines, tag, origin, tries=24):
+    """The model and the engine disagree on this history but no stale result was seen: look for a continuation on which the
+    disagreement becomes a property failure. Continuations: optional null builds, change of every observed input (or of a random
+    subset), optional restart over the database, then builds of every key in random order - each judged by the fresh-engine oracle."""
+    base = [l for l in lines if not l.startswith("fresh ")]
+    keys, obs = [], []
+    for l in base:
+        t = l.split(" ")
+        if t[0] == "rule":
+            k = int(t[1])
+            if k not in keys:
+                keys.append(k)
+            if "obs=1" in t and k not in obs:
+                obs.append(k)
+            for a in t[2:]:
+                if "=" in a and a.split("=")[0] in ("req", "single", "follow", "disc"):
+                    for x in a.split("=")[1].split(","):
+                        if x and int(x) not in keys:
+                            keys.append(int(x))
+    undefined = [k for k in keys if not any(l.startswith("rule %d " % k) for l in base)]
+    obs += [k for k in undefined if k not in obs]          # the driver's default rule observes its environment entry
+    usedb = base[0] != "db 0"
+    rng = random.Random(zlib.crc32("\n".join(base).encode()))
+    for i in range(tries):
+        tail = []
+        for k in rng.sample(keys, rng.randint(0, min(2, len(keys)))):
+            tail.append("build %d" % k)                       # builds that only scan
+        chg = obs if i % 2 == 0 else rng.sample(obs, rng.randint(1, len(obs))) if obs else []
+        for k in chg:
+            tail.append("set %d %d" % (k, 1000 + i))
+        if usedb and rng.random() < 0.3:
+            tail.append("restart")
+        order = list(keys)
+        rng.shuffle(order)
+        tail += ["build %d" % k for k in order]
+        cand = K.with_fresh(base + tail)
+        r = sess.run(cand, tag + "-search")
+        if r["rc"] != 0:
+            continue
+        bad = K.oracle_c01(K.parse_impl(r["out"]))
+        if bad:
+            def still(c2):
+                rr = sess.run(c2, tag + "-shrink")
+                return rr["rc"] == 0 and any(k == bad[0][0] for k, _ in K.oracle_c01(K.parse_impl(rr["out"])))
+            small = K.shrink(cand, still)
+            rr = sess.run(small, tag + "-min")
+            chk.violation(bad[0][0], bad[0][1], dict(scenario=small, original_scenario=cand, implementation=rr["out"], oracle="fresh engine",
+                                                     origin=origin + " (found by continuing a history on which model and engine disagreed)"),
+                          found_input=True, broken="incremental == fresh on the implementation")
+            return True
+    return False
 
 
 def corpus():
